@@ -45,6 +45,29 @@ func (s suiteSpec) resolve() (suite otp.Suite, cfg ref.OCRACfg, libErr error) {
 	case "newsuite":
 		su, err := otp.NewSuite(toLib(s.Cfg))
 		return su, s.Cfg, err
+	case "mutated":
+		// a suite value that a constructor produced for ANOTHER suite (Name), whose exported fields were then set to this
+		// configuration: what the value holds now decides, not what it was built from
+		var start otp.Suite
+		if otp.IsKnownSuite(s.Name) {
+			start, _ = otp.NewRawSuite(s.Name)
+		} else {
+			start, _ = otp.NewSuite(otp.SuiteConfig{Raw: s.Name, Hash: otp.SHA1, Digits: 6, Challenge: otp.ChallengeNumeric08, IncludeChallenge: true})
+		}
+		switch v := start.(type) {
+		case otp.RawSuite:
+			v.SuiteConfig = toLib(s.Cfg)
+			return v, s.Cfg, nil
+		case *otp.RawSuite:
+			if v != nil {
+				v.SuiteConfig = toLib(s.Cfg)
+				return v, s.Cfg, nil
+			}
+		case otp.SuiteConfig:
+			v = toLib(s.Cfg)
+			return v, s.Cfg, nil
+		}
+		return otp.RawSuite{SuiteConfig: toLib(s.Cfg)}, s.Cfg, nil
 	}
 	panic("bad suiteSpec.Via " + s.Via)
 }
@@ -167,7 +190,11 @@ func drawSuite(t *rapid.T) suiteSpec {
 		}
 		return suiteSpec{Via: "parsed", Name: name}
 	default:
-		return suiteSpec{Via: rapid.SampledFrom([]string{"config", "rawsuite", "newsuite"}).Draw(t, "via"), Cfg: drawUsableCfg(t)}
+		sp := suiteSpec{Via: rapid.SampledFrom([]string{"config", "rawsuite", "newsuite", "mutated"}).Draw(t, "via"), Cfg: drawUsableCfg(t)}
+		if sp.Via == "mutated" {
+			sp.Name = rapid.SampledFrom(append([]string{"hand-built-start"}, registeredNames...)).Draw(t, "mutStart")
+		}
+		return sp
 	}
 }
 
